@@ -96,6 +96,10 @@ func c10Table() []c10Write {
 		t = append(t, c10Write{name: "after-" + u + "/SET", state: "string", setup: c10Setups["string"], cmd: []string{"SET", "w", "changed"}, modify: false, unwatch: u})
 		t = append(t, c10Write{name: "after-" + u + "/LPUSH", state: "list", setup: c10Setups["list"], cmd: []string{"LPUSH", "w", "x"}, modify: false, unwatch: u})
 	}
+	// rotating a one-element list onto itself leaves the value as it is but is a write of the key
+	for _, c := range [][]string{{"LMOVE", "w", "w", "LEFT", "RIGHT"}, {"LMOVE", "w", "w", "RIGHT", "RIGHT"}, {"RPOPLPUSH", "w", "w"}, {"BLMOVE", "w", "w", "LEFT", "RIGHT", "0.01"}, {"BRPOPLPUSH", "w", "w", "0.01"}} {
+		t = append(t, c10Write{name: "rotate-single/" + cmdTag(c), state: "list1", setup: [][]string{{"RPUSH", "w", "only"}, {"SET", "o", "ov"}}, cmd: c, modify: true})
+	}
 	// RENAME of a key to itself changes nothing (all types)
 	for _, st := range []string{"string", "list", "hash", "set"} {
 		t = append(t, c10Write{name: "RENAME-self", state: st, setup: c10Setups[st], cmd: []string{"RENAME", "w", "w"}, modify: false})
